@@ -53,3 +53,179 @@ Print Assumptions C08_registration_receipt_is_row.
 Print Assumptions C08_appointment_receipt_fields.
 Print Assumptions C08_stored_as_submitted.
 Print Assumptions C08_read_back.
+
+(* ================================================================================================ *)
+(* The remaining clauses, and the RUN-LEVEL statements (TowerRuns2.v; a moment of a run is a cut
+   h = pre ++ (o, sc) :: post, see TowerRuns.v). *)
+From TeosModel Require Import TowerBreach TowerLive TowerRuns TowerRuns2.
+From TeosModel Require Wire WireApi WireApiProofs.
+
+(* "A receipt is issued only for an appointment the tower has stored, responded to, or - when its dispute was
+   already confirmed - dropped because the blob did not decrypt or the node refused the penalty": for every
+   state, request and node script (no invariant needed). *)
+Theorem C08_receipt_only_if_taken_on le t sc signer loc b delay sig t' st sg sl e :
+  step le t (OAdd signer loc b delay sig) sc = (t', OAddRes (AddOk st sg sl e)) ->
+  exists u, signer = Some u /\ taken_on sc t t' u loc b delay sig.
+Proof. exact (receipt_only_if_taken_on le t sc signer loc b delay sig t' st sg sl e). Qed.
+
+Theorem C08_taken_on_eq sc t t' u loc b delay sig :
+  taken_on sc t t' u loc b delay sig =
+  (let a := mk_app loc u b delay sig (w_height t) in
+   (find_app (db_apps t') (loc, u) = Some a /\ find_trk (db_trks t') (loc, u) = None) \/
+   (exists d p, ti_get (w_cache t) loc = Some d /\ decrypt b d = Some p /\
+                status_accepted (breach_status sc t p) = true /\
+                find_app (db_apps t') (loc, u) = Some a /\ responded t' (loc, u) d p (breach_status sc t p)) \/
+   (exists d, ti_get (w_cache t) loc = Some d /\
+              (decrypt b d = None \/ exists p, decrypt b d = Some p /\ status_rejected (breach_status sc t p) = true) /\
+              dropped t' (loc, u))).
+Proof. reflexivity. Qed.
+
+(* ... for every receipt of every run, with the receipt's own fields *)
+Theorem C08_receipt_only_if_taken_on_run le c h0 blocks t0 h pre signer loc b delay sig sc post st sg sl e :
+  init c h0 blocks = Some t0 -> NoDup (map fst blocks) -> N.of_nat (length blocks) <= h0 ->
+  in_envelope le t0 h = true -> chain_disciplined le t0 h = true ->
+  h = pre ++ (OAdd signer loc b delay sig, sc) :: post ->
+  let t := fst (run le t0 pre) in
+  snd (step le t (OAdd signer loc b delay sig) sc) = OAddRes (AddOk st sg sl e) ->
+  exists u, signer = Some u /\ sg = sig /\ st = w_height t /\
+            taken_on sc t (fst (run le t0 (pre ++ [(OAdd signer loc b delay sig, sc)]))) u loc b delay sig.
+Proof. exact (receipt_only_if_taken_on_run le c h0 blocks t0 h pre signer loc b delay sig sc post st sg sl e). Qed.
+
+(* ONE STEP: an untriggered row stays byte-identical, and untriggered, through every step that is not a block
+   carrying its locator, a block purging its owner, or an accepted add_appointment of its owner for it *)
+Theorem C08_stored_row_step le t o sc t' x uuid a :
+  Inv t -> step le t o sc = (t', x) -> not_abort x ->
+  find_app (db_apps t) uuid = Some a -> find_trk (db_trks t) uuid = None ->
+  app_may_end t o x uuid = false ->
+  find_app (db_apps t') uuid = Some a /\ find_trk (db_trks t') uuid = None.
+Proof. exact (stored_row_step le t o sc t' x uuid a). Qed.
+
+Theorem C08_app_may_end_eq t o x uuid :
+  app_may_end t o x uuid =
+  match o, x with
+  | OConnect _ txs, _ =>
+      memN (fst uuid) txs ||
+      match aget (db_users t) (snd uuid) with
+      | Some ui => N.leb (u_expiry ui + c_delta (cfg t)) (gk_height t + 1)
+      | None => true
+      end
+  | OAdd (Some u) loc _ _ _, OAddRes (AddOk _ _ _ _) => uuid_eqb (loc, u) uuid
+  | _, _ => false
+  end.
+Proof. reflexivity. Qed.
+
+(* "reading an accepted appointment back returns byte-for-byte the version last accepted", along any run:
+   after an AddOk for (loc, u) that left the row stored untriggered, along every continuation `mid` in which no
+   step may trigger, replace or purge it, the row is exactly the accepted version (start block = the tower's
+   height at acceptance) and EVERY get_appointment of its owner on the way returns exactly (loc, b, delay) -
+   for every blob and delay, across block events and reorgs - or, once the owner's subscription has expired,
+   the subscription-expired error of C09. *)
+Theorem C08_read_back_run le c h0 blocks t0 h pre u loc b delay sig sc mid post st sg sl e :
+  init c h0 blocks = Some t0 -> NoDup (map fst blocks) -> N.of_nat (length blocks) <= h0 ->
+  in_envelope le t0 h = true -> chain_disciplined le t0 h = true ->
+  h = (pre ++ [(OAdd (Some u) loc b delay sig, sc)]) ++ mid ++ post ->
+  snd (step le (fst (run le t0 pre)) (OAdd (Some u) loc b delay sig) sc) = OAddRes (AddOk st sg sl e) ->
+  let pre' := pre ++ [(OAdd (Some u) loc b delay sig, sc)] in
+  find_app (db_apps (fst (run le t0 pre'))) (loc, u) <> None ->
+  find_trk (db_trks (fst (run le t0 pre'))) (loc, u) = None ->
+  (forall m1 o sc' m2, mid = m1 ++ (o, sc') :: m2 ->
+     app_may_end (fst (run le t0 (pre' ++ m1))) o (snd (step le (fst (run le t0 (pre' ++ m1))) o sc')) (loc, u) = false) ->
+  let a := mk_app loc u b delay sig (w_height (fst (run le t0 pre))) in
+  (find_app (db_apps (fst (run le t0 (pre' ++ mid)))) (loc, u) = Some a /\
+   find_trk (db_trks (fst (run le t0 (pre' ++ mid)))) (loc, u) = None) /\
+  (forall m1 sc' m2, mid = m1 ++ (OGet (Some u) loc, sc') :: m2 ->
+     let t := fst (run le t0 (pre' ++ m1)) in
+     exists ui, gk_get t u = Some ui /\
+       snd (step le t (OGet (Some u) loc) sc') =
+       OGetRes (if N.leb (u_expiry ui) (gk_height t) then GetExpired (u_expiry ui) else GetApp loc b delay)).
+Proof. exact (read_back_run le c h0 blocks t0 h pre u loc b delay sig sc mid post st sg sl e). Qed.
+
+Theorem C08_never_may_end_cuts le mid t uuid :
+  Forall not_abort (snd (run le t mid)) -> never_may_end le t mid uuid = true ->
+  forall m1 o sc m2, mid = m1 ++ (o, sc) :: m2 ->
+    app_may_end (fst (run le t m1)) o (snd (step le (fst (run le t m1)) o sc)) uuid = false.
+Proof. exact (never_may_end_cuts le mid t uuid). Qed.
+
+(* "binds", at byte level (Wire.v: the `to_vec` layouts generated from teos-common/src/receipts.rs): the signed
+   bytes of an appointment receipt determine (user_signature, start_block), those of a registration receipt
+   determine (user_id, available_slots, subscription_start, subscription_expiry): two receipts with the same
+   signed bytes are receipts for the same fields (corollary of C16_signed_layout_injective) *)
+Theorem C08_receipt_bytes_bind_fields :
+  (forall s b s' b',
+      b < 4294967296 -> b' < 4294967296 ->
+      WireApi.w_appointment_receipt_to_vec s b = WireApi.w_appointment_receipt_to_vec s' b' -> s = s' /\ b = b') /\
+  (forall u a s e u' a' s' e',
+      length u = 33%nat -> length u' = 33%nat ->
+      a < 4294967296 -> s < 4294967296 -> e < 4294967296 -> a' < 4294967296 -> s' < 4294967296 -> e' < 4294967296 ->
+      WireApi.w_registration_receipt_to_vec u a s e = WireApi.w_registration_receipt_to_vec u' a' s' e' ->
+      u = u' /\ a = a' /\ s = s' /\ e = e') /\
+  (* and the layouts are the documented ones *)
+  (forall s b, WireApi.w_appointment_receipt_to_vec s b = s ++ Wire.w_be32 b) /\
+  (forall u a s e, WireApi.w_registration_receipt_to_vec u a s e = u ++ Wire.w_be32 a ++ Wire.w_be32 s ++ Wire.w_be32 e).
+Proof.
+  split; [exact WireApiProofs.appointment_receipt_to_vec_inj|]. split; [exact WireApiProofs.registration_receipt_to_vec_inj|].
+  split; [exact WireApiProofs.appointment_receipt_to_vec_eq|exact WireApiProofs.registration_receipt_to_vec_eq].
+Qed.
+
+Print Assumptions C08_receipt_only_if_taken_on.
+Print Assumptions C08_taken_on_eq.
+Print Assumptions C08_receipt_only_if_taken_on_run.
+Print Assumptions C08_stored_row_step.
+Print Assumptions C08_app_may_end_eq.
+Print Assumptions C08_read_back_run.
+Print Assumptions C08_never_may_end_cuts.
+Print Assumptions C08_receipt_bytes_bind_fields.
+
+(* ---------- non-vacuity: a concrete history ---------- *)
+Definition C08_ex_c0 := mk_config 10 1000 6.
+Definition C08_ex_blocks0 : list (N * list N) := [(1006,[]);(1005,[]);(1004,[]);(1003,[]);(1002,[]);(1001,[])].
+Definition C08_ex_dummy := mk_tower C08_ex_c0 [] 0 [] [] [] 0 (mk_txindex [] [] [] 0 0) (mk_txindex [] [] [] 0 0) 0 [] [] [].
+Definition C08_ex_t0 := match init C08_ex_c0 200 C08_ex_blocks0 with Some t => t | None => C08_ex_dummy end.
+Definition C08_ex_v1 := mk_blob 500 (Some 900) 100.
+Definition C08_ex_v2 := mk_blob 500 (Some 901) 5000.      (* the update: another penalty, three slots *)
+Definition C08_ex_pre : list (op * script) := [(ORegister 1, []); (ORegister 2, []); (OAdd (Some 1) 500 C08_ex_v1 20 77, [])].
+Definition C08_ex_add2 : op * script := (OAdd (Some 1) 500 C08_ex_v2 21 78, []).
+(* reads interleaved with blocks that do not carry the locator, another user's appointment on the same locator,
+   a reorg (height going backwards) *)
+Definition C08_ex_mid : list (op * script) :=
+  [(OGet (Some 1) 500, []); (OConnect 2001 [7], []); (OAdd (Some 2) 500 C08_ex_v1 20 79, []); (OGet (Some 1) 500, []);
+   (OConnect 2002 [], []); (ODisconnect, []); (ODisconnect, []); (OGet (Some 1) 500, [])].
+Definition C08_ex_post : list (op * script) := [(OConnect 2003 [500], []); (OGet (Some 1) 500, [])].
+Definition C08_ex_hist := (C08_ex_pre ++ [C08_ex_add2]) ++ C08_ex_mid ++ C08_ex_post.
+
+Lemma C08_ex_blocks0_nodup : NoDup (map fst C08_ex_blocks0).
+Proof. repeat (constructor; [cbn; intuition discriminate|]). constructor. Qed.
+
+Example C08_ex_hyps :
+  init C08_ex_c0 200 C08_ex_blocks0 = Some C08_ex_t0 /\ N.of_nat (length C08_ex_blocks0) <= 200 /\
+  in_envelope true C08_ex_t0 C08_ex_hist = true /\ chain_disciplined true C08_ex_t0 C08_ex_hist = true.
+Proof. repeat split; vm_compute; try reflexivity. discriminate. Qed.
+
+(* the premises of C08_read_back_run hold for the update (the second accepted version) ... *)
+Example C08_ex_read_back_premises :
+  let pre' := C08_ex_pre ++ [C08_ex_add2] in
+  snd (step true (fst (run true C08_ex_t0 C08_ex_pre)) (fst C08_ex_add2) (snd C08_ex_add2)) = OAddRes (AddOk 200 78 7 1200) /\
+  find_app (db_apps (fst (run true C08_ex_t0 pre'))) (500, 1) <> None /\
+  find_trk (db_trks (fst (run true C08_ex_t0 pre'))) (500, 1) = None /\
+  never_may_end true (fst (run true C08_ex_t0 pre')) C08_ex_mid (500, 1) = true /\
+  Forall not_abort (snd (run true (fst (run true C08_ex_t0 pre')) C08_ex_mid)).
+Proof. vm_compute. repeat split; try reflexivity; try discriminate. repeat constructor. Qed.
+
+(* ... and its conclusion, computed: the three reads on the way return exactly the last accepted version *)
+Example C08_ex_read_back_computed :
+  let pre' := C08_ex_pre ++ [C08_ex_add2] in
+  map (fun i => snd (step true (fst (run true C08_ex_t0 (pre' ++ firstn i C08_ex_mid))) (OGet (Some 1) 500) [])) [0; 3; 7]%nat
+  = [OGetRes (GetApp 500 C08_ex_v2 21); OGetRes (GetApp 500 C08_ex_v2 21); OGetRes (GetApp 500 C08_ex_v2 21)] /\
+  (* the block carrying the locator is a step that may end it: here it triggers it *)
+  app_may_end (fst (run true C08_ex_t0 (pre' ++ C08_ex_mid))) (OConnect 2003 [500]) OBlockRes (500, 1) = true /\
+  snd (step true (fst (run true C08_ex_t0 (pre' ++ C08_ex_mid ++ [(OConnect 2003 [500], [])]))) (OGet (Some 1) 500) [])
+  = OGetRes (GetTrk 500 901).
+Proof. vm_compute. repeat split; reflexivity. Qed.
+
+(* receipt_only_if_taken_on, third case: a late appointment whose blob does not decrypt gets a receipt and is dropped *)
+Example C08_ex_receipt_for_dropped :
+  let t := fst (run true C08_ex_t0 [(ORegister 1, []); (OConnect 2001 [500], [])]) in
+  let '(t', x) := step true t (OAdd (Some 1) 500 (mk_blob 501 (Some 900) 100) 20 77) [] in
+  x = OAddRes (AddOk 201 77 9 1200) /\ ti_get (w_cache t) 500 = Some 500 /\
+  decrypt (mk_blob 501 (Some 900) 100) 500 = None /\ find_app (db_apps t') (500, 1) = None.
+Proof. vm_compute. repeat split; reflexivity. Qed.
